@@ -119,3 +119,32 @@ Definition quote_law_premises (text : str) : bool :=
 
 (* the alphabet of the bounded sweeps: a, space, newline, - # > ` 1 . *)
 Definition law_alpha : str := [97; 32; 10; 45; 35; 62; 96; 49; 46].
+
+(* ---- C05: premises (A's last top-level block is of a closed kind, no link definitions) ---- *)
+Definition closed_tok (t : tok) : bool :=
+  match t with
+  | Paragraph _ | Heading _ _ _ | SetextHeading _ _ _ | ThematicBreak _ | Quote _ | Table _ _ _ => true
+  | _ => false
+  end.
+Definition independence_premises (cfg : pconfig) (a b : str) : bool :=
+  let '(ta, fa, _) := parse_lines cfg (doc_lines_of_str a) in
+  let '(_, fb, _) := parse_lines cfg (doc_lines_of_str b) in
+  match ta with
+  | Document ca => match rev ca with last :: _ => closed_tok last | [] => false end
+  | _ => false
+  end && match fa with [] => true | _ => false end && match fb with [] => true | _ => false end.
+Definition independence_guarded (cfg : pconfig) (a b : str) : bool :=
+  if independence_premises cfg a b then independence_law cfg a b else true.
+
+(* texts A: all strings over indep_alpha up to length 4 that end in a newline; continuations B *)
+Definition indep_alpha : str := [97; 10; 45; 96; 32].
+Definition indep_As : list str := map (fun s => s ++ [10]) (strings_up_to indep_alpha 4).
+Definition indep_Bs : list str :=
+  [ $"    a"; $"  - a"; $"---"; $"==="; $"```"; $"> a"; $"- a"; $"a"; $" a"; [10; 32; 32; 32; 32; 97]; $"`"; $"   ---"; $"a" ++ [10] ++ $"===" ].
+
+(* every fourth element, starting at k: the shards of a sweep *)
+Fixpoint every4 {A} (k : nat) (l : list A) : list A :=
+  match l with
+  | a :: b :: c :: d :: r => nth k [a; b; c; d] a :: every4 k r
+  | _ => match k with O => l | _ => [] end
+  end.
